@@ -69,6 +69,67 @@ impl Drop for DeepRec {
     }
 }
 
+/// the same chain with an evolution header at every level (region and buffer stacks as deep as the value)
+#[derive(BinaryCodec)]
+#[evolution(FieldAdded("tag", 0u8))]
+pub struct DeepEvolved {
+    pub v: u8,
+    pub next: Option<Box<DeepEvolved>>,
+    pub tag: u8,
+}
+
+impl Model for DeepEvolved {
+    fn ty() -> Ty {
+        Ty::Named("DeepEvolved".into())
+    }
+    fn from_val(v: &Val) -> Self {
+        let mut vals = Vec::new();
+        let mut cur = v;
+        loop {
+            match cur {
+                Val::Rec(f) if f.len() == 3 => {
+                    vals.push((u8::from_val(&f[0]), u8::from_val(&f[2])));
+                    match &f[1] {
+                        Val::Some(inner) => cur = inner,
+                        _ => break,
+                    }
+                }
+                _ => panic!("harness: from_val::<DeepEvolved>"),
+            }
+        }
+        let mut node: Option<Box<DeepEvolved>> = None;
+        for (x, t) in vals.into_iter().rev() {
+            node = Some(Box::new(DeepEvolved { v: x, next: node, tag: t }));
+        }
+        *node.unwrap()
+    }
+    fn to_val(&self) -> Val {
+        let mut vals = Vec::new();
+        let mut cur = Some(self);
+        while let Some(n) = cur {
+            vals.push((n.v, n.tag));
+            cur = n.next.as_deref();
+        }
+        let mut v = Val::None;
+        for (x, t) in vals.into_iter().rev() {
+            v = Val::some(Val::Rec(vec![Val::U(x as u128), v, Val::U(t as u128)]));
+        }
+        match v {
+            Val::Some(b) => *b,
+            _ => unreachable!(),
+        }
+    }
+}
+
+impl Drop for DeepEvolved {
+    fn drop(&mut self) {
+        let mut next = self.next.take();
+        while let Some(mut n) = next {
+            next = n.next.take();
+        }
+    }
+}
+
 #[derive(BinaryCodec)]
 pub struct DeepVec {
     pub kids: Vec<DeepVec>,
@@ -495,6 +556,15 @@ pub fn register(reg: &mut Registry) {
             steps: vec![],
         })),
     );
+    refmodel::register(
+        "DeepEvolved",
+        Ty::Record(Arc::new(RecordSchema {
+            name: "DeepEvolved".into(),
+            fields: vec![f::<u8>("v", false), f::<Option<Box<DeepEvolved>>>("next", true), sbase::fs::<u8>("tag", false, false, Some(Val::U(0)))],
+            steps: vec![Step::Added("tag".into())],
+        })),
+    );
+    reg.add_tagged::<DeepEvolved>("DeepEvolved", &["special:recursive", "recursive"]);
     refmodel::register(
         "DeepVec",
         Ty::Record(Arc::new(RecordSchema { name: "DeepVec".into(), fields: vec![f::<Vec<DeepVec>>("kids", false)], steps: vec![] })),
